@@ -326,6 +326,8 @@ def list_graders(debug):
         'String': (StringGrader(answers='1', debug=debug), 'single'),
         'List2': (ListGrader(answers=['1', 'x'], subgraders=sub(), debug=debug), 'list2'),
         'List2Ordered': (ListGrader(answers=['1', 'sibling_1+x'], subgraders=sub(), ordered=True, debug=debug), 'list2'),
+        'List3Siblings': (ListGrader(answers=['sibling_2+sibling_3', 'x', 'y'], subgraders=FormulaGrader(variables=['x', 'y'], debug=debug),
+                                     ordered=True, debug=debug), 'list3'),
         'ListGrouped': (ListGrader(answers=[['1', 'x'], ['x', '1']], subgraders=ListGrader(subgraders=sub(), debug=debug),
                                    grouping=[1, 1, 2, 2], debug=debug), 'list4'),
         'Sum': (SumGrader(answers=dict(lower='1', upper='3', summand='x', summation_variable='x'), debug=debug), 'list4'),
@@ -336,7 +338,7 @@ def list_graders(debug):
 
 class ListShapes(Family):
     name = 'list_interval_sum_shapes'
-    timeout = 20.0
+    timeout = 8.0
     timeout_sig = 'non-termination'
     rule = ('SingleListGrader (two delimiters, nested), IntervalGrader, StringGrader, ListGrader (flat, ordered with siblings, grouped) and '
             'SumGrader: single-input graders get every delimiter-joined tuple of <=3 items from %r with , and ; and bracket characters; '
@@ -364,6 +366,10 @@ class ListShapes(Family):
             elif kind == 'list2':
                 for tup in itertools.product(range(len(ITEMS)), repeat=2):
                     yield (gname, [ITEMS[i] for i in tup])
+            elif kind == 'list3':
+                items3 = ['x', 'y', 'x+y', 'q', '1', '', 'sibling_1', 'sibling_3', '1+', '(']
+                for tup in itertools.product(range(len(items3)), repeat=3):
+                    yield (gname, [items3[i] for i in tup])
             else:
                 items = ITEMS[:6] + ['3', 'n']
                 rng = range(len(items)) if tier == 'thorough' else range(6)
